@@ -2,10 +2,13 @@ import RbV.Basic.Codec
 import RbV.Spec.Occ
 import RbV.Spec.QGram
 import RbV.Spec.KChain
+import RbV.Model.QGramIter
+import RbV.Model.QGramMatches
+import RbV.Model.QGramIndex
 /-! Driver for property C19 (line protocol → verdict).
 
 ```
-c19 codes  <alpha hex> <q> <text hex>                          => w=<width> f=<codes> r=<codes>
+c19 codes  <alpha hex> <q> <text hex> <gram/gram/…|->              => w=<width> f=<codes> r=<codes> x=<codes of the extra q-grams>
 c19 idx    <alpha hex> <q> <max_count|max> <text hex> <query;query;…>
                                                                => ok <res;res;…>   |   BUILDPANIC <class>
            query  g:<gram hex> | m:<min_count>:<pattern hex> | e:<pattern hex>
@@ -60,26 +63,46 @@ def inAlpha (A : List Nat) (s : List Nat) : Bool := s.all (A.contains ·)
 
 /-! ### codes -/
 
-def verdictCodes (ah qs th out : String) : String :=
-  match parseHex ah, parseNat qs, parseHex th with
-  | some alpha, some q, some text =>
+/-- first pair of positions at which "equal codes ⇔ equal q-grams" fails -/
+def codeClash (words : List (List Nat)) (cs : List Nat) : Option String :=
+  let ps := words.zip cs
+  ps.findSome? fun (w1, c1) => ps.findSome? fun (w2, c2) =>
+    if w1 == w2 && c1 != c2 then some s!"code-not-a-function-of-the-qgram {toHex w1}:{c1}/{c2}"
+    else if w1 != w2 && c1 == c2 then some s!"code-collision {toHex w1}/{toHex w2}:{c1}"
+    else none
+
+def verdictCodes (ah qs th xs out : String) : String :=
+  match parseHex ah, parseNat qs, parseHex th, parseList parseHex xs '/' with
+  | some alpha, some q, some text, some extras =>
     let A := alphaSet alpha
     let b := bitsFor A.length
-    if A.isEmpty || q = 0 || !inAlpha A text then "bad-op codes-domain" else
+    if A.isEmpty || q = 0 || !inAlpha A text || !(extras.all fun g => g.length == q && inAlpha A g) then "bad-op codes-domain" else
     if b * q > 64 then
       if out.startsWith "PANIC" then "ok refused" else "ok out-of-domain"
     else
-    match (outField out "w").bind parseNat, (outField out "f").bind parseNatList, (outField out "r").bind parseNatList with
-    | some w, some f, some r =>
+    match (outField out "w").bind parseNat, (outField out "f").bind parseNatList, (outField out "r").bind parseNatList,
+          (outField out "x").bind parseNatList with
+    | some w, some f, some r, some x =>
       let exp := fwdCodes A q text
-      if w ≠ b then s!"diff w={b}" else
-      if f ≠ exp then "diff f=" ++ showNatList exp else
-      if r ≠ exp.reverse then "diff r=" ++ showNatList exp.reverse else
+      -- the mirror models of the two iterators are proved equal to the reference (Thm.C19.qgrams_model_refines,
+      -- rev_qgrams_mirror); they are run as well so that a disagreement could only be a driver defect
+      if qgramsModel A q text ≠ exp || revQgramsModel A q text ≠ exp.reverse then "bad-op model-vs-reference" else
+      let ws := windows q text
+      -- what the property fixes: one code per window, equal codes exactly for equal q-grams, reverse iteration mirrors
+      if f.length ≠ ws.length then s!"reject codes-count expected {ws.length}" else
+      if x.length ≠ extras.length then "bad-op codes-extra-arity" else
+      match codeClash (ws ++ extras) (f ++ x) with
+      | some why => "reject " ++ why
+      | none =>
+      if r ≠ f.reverse then "reject rev-not-mirror-of-forward" else
+      -- what it does not fix (the documented encoding, `get_width`): reported as drift only
       "ok" ++ (if exp.length ≥ 2 && A.length ≥ 2 then " nt" else "") ++ " codes"
+        ++ (if f ≠ exp || x ≠ extras.map (fun g => code b (g.map (rank A))) then " drift-encoding" else "")
+        ++ (if w ≠ b then " drift-width" else "")
         ++ (if !isPow2 A.length then " np2" else "") ++ (if b * q = 64 then " full-word" else "")
         ++ (if b * q > 32 then " wide" else "") ++ (if exp.isEmpty then " short-text" else "")
-    | _, _, _ => if out.startsWith "PANIC" || out.startsWith "HANG" || out.startsWith "CRASH" then "reject " ++ out else "bad-op codes-output"
-  | _, _, _ => "bad-op codes-parse"
+    | _, _, _, _ => if out.startsWith "PANIC" || out.startsWith "HANG" || out.startsWith "CRASH" then "reject " ++ out else "bad-op codes-output"
+  | _, _, _, _ => "bad-op codes-parse"
 
 /-! ### index -/
 
@@ -107,13 +130,16 @@ def checkQuery (A : List Nat) (q mc : Nat) (text : List Nat) (qu : Query) (res :
   let oobQ := patCodes.any (· ≥ cap)
   let panicked := res.startsWith "P!"
   let classify (negdiag : Bool) : Option (Bool × String) :=
-    if res.startsWith "P!index-out-of-bounds" && oobQ then some (true, "known-oob-nonpow2 query " ++ res)
-    else if res.startsWith "P!attempt-to-subtract-with-overflow" && negdiag then some (true, "known-negdiag matches " ++ res)
+    if res.startsWith "P!index-out-of-bounds" && oobQ then some (true, "oob-nonpow2 query " ++ res)
+    else if res.startsWith "P!attempt-to-subtract-with-overflow" && negdiag then some (true, "negdiag-underflow matches " ++ res)
     else some (false, "unexpected-panic " ++ res)
-  let _ := b
   match qu with
   | .g gram =>
     let exp := qgramPositions mc gram text
+    -- mirror model of the index construction (Thm.C19.index_model_refines), run for small tables
+    let size := 2 ^ (b * q)
+    if size ≤ 1024 && qgramMatchesModel (buildIndex size mc (fwdCodes A q text)) (code b (gram.map (rank A))) ≠ exp then
+      (some (false, "BADOP index-model-vs-reference"), []) else
     if panicked then (classify false, []) else
     match parseNatList res with
     | some l => if l = exp then (none, (if exp.isEmpty then [] else ["g-hit"]) ++
@@ -123,11 +149,16 @@ def checkQuery (A : List Nat) (q mc : Nat) (text : List Nat) (qu : Query) (res :
     let H := hits mc q pat text
     let negdiag := H.any fun h => h.1 > h.2
     let exp := sortRecs ((matchesRef mc q minc pat text).map fun r => [r.1, r.2.1, r.2.2.1, r.2.2.2.1, r.2.2.2.2])
+    -- mirror model of the Rust loop, proved to report the same records (Thm.C19.matches_model_refines)
+    let mdl := sortRecs ((matchesModel mc q minc pat text).map fun r => [r.1, r.2.1, r.2.2.1, r.2.2.2.1, r.2.2.2.2])
+    if mdl ≠ exp then (some (false, "BADOP model-vs-reference"), []) else
     if panicked then (classify negdiag, []) else
     match parseRecs 5 res with
     | some l => if sortRecs l = exp then (none, (if exp.isEmpty then [] else ["m-hit"]) ++ (if negdiag then ["negdiag-ok"] else [])
                     ++ (if exp.length ≥ 2 then ["m-multi-diag"] else []) ++ (if exp.any (fun r => r.getD 4 0 ≥ 2) then ["m-count>=2"] else [])
                     ++ (if (matchesRef mc q 0 pat text).length > exp.length then ["m-filtered"] else []))
+                else if sortRecs l = sortRecs ((matchesRef (2 ^ 64 - 1) q minc pat text).map fun r => [r.1, r.2.1, r.2.2.1, r.2.2.2.1, r.2.2.2.2])
+                  then (none, ["unmasked-reading"])   -- the property does not say how `matches` treats masked q-grams
                 else (some (false, "m " ++ showRecs exp), [])
     | none => (some (false, "unparsable " ++ res), [])
   | .e pat =>
@@ -140,6 +171,8 @@ def checkQuery (A : List Nat) (q mc : Nat) (text : List Nat) (qu : Query) (res :
                     ++ (if exp.length ≥ 2 then ["e-multi"] else [])
                     ++ (if (exp.map fun r => (r.getD 2 0 : Int) - (r.getD 0 0 : Int)).eraseDups.length < exp.length then ["e-split-diag"] else [])
                     ++ (if exp.any (fun r => r.getD 0 0 > r.getD 2 0) then ["e-negdiag"] else []))
+                else if sortRecs l = sortRecs ((exactMatchesRef (2 ^ 64 - 1) q pat text).map fun r => [r.1, r.2.1, r.2.2.1, r.2.2.2])
+                  then (none, ["unmasked-reading"])   -- nor how `exact_matches` does
                 else (some (false, "e " ++ showRecs exp), [])
     | none => (some (false, "unparsable " ++ res), [])
 
@@ -154,7 +187,7 @@ def verdictIdx (ah qs mcs th qus out : String) : String :=
     let cap := A.length ^ q
     let oobText := (fwdCodes A q text).any (· ≥ cap)
     if out.startsWith "BUILDPANIC " then
-      if (out.drop 11).toString.startsWith "index-out-of-bounds" && oobText then "reject known-oob-nonpow2 build " ++ out
+      if (out.drop 11).toString.startsWith "index-out-of-bounds" && oobText then "reject oob-nonpow2 build " ++ out
       else "reject build-panic " ++ out
     else if !out.startsWith "ok " then
       (if out.startsWith "PANIC" || out.startsWith "HANG" || out.startsWith "CRASH" then "reject " ++ out else "bad-op idx-output")
@@ -164,7 +197,7 @@ def verdictIdx (ah qs mcs th qus out : String) : String :=
     let outcomes := (queries.zip ress).map fun (qu, r) => checkQuery A q mc text qu r
     let bad := outcomes.filterMap (·.1)
     match bad.find? (fun x => !x.1) with
-    | some (_, msg) => "diff " ++ msg
+    | some (_, msg) => if msg.startsWith "BADOP" then "bad-op " ++ msg else "diff " ++ msg
     | none =>
       match bad.head? with
       | some (_, msg) => "reject " ++ msg
@@ -181,7 +214,6 @@ def verdictIdx (ah qs mcs th qus out : String) : String :=
 def chainVerdict (what : String) (ms : List M) (k : Nat) (path : List Nat) : Option String :=
   if !path.all (· < ms.length) then some (what ++ "-index-out-of-range")
   else if !validChain ms k path then some (what ++ "-chain-invalid")
-  else if path.isEmpty && !ms.isEmpty then some (what ++ "-empty-chain")
   else none
 
 def optOf (ms : List M) (k : Nat) : Option Nat :=
@@ -199,7 +231,7 @@ def lcsCheck (ms : List M) (k : Nat) (out : String) : Option String × List Stri
       | some opt =>
         let cs := score k (pathMatches ms path)
         if cs ≠ opt then (some s!"reject lcskpp-chain-not-optimal chain-score={cs} optimum={opt}", [])
-        else if sc ≠ opt then (some s!"diff score={opt}", [])
+        else if sc ≠ opt then (some s!"diff score {opt}", [])
         else (none, (if path.length ≥ 2 then ["chain>=2"] else []) ++
               (if (pathMatches ms path).zip ((pathMatches ms path).drop 1) |>.any (fun (a, b) => cont a b && !nonov k a b) then ["has-cont"] else []) ++
               (if (pathMatches ms path).zip ((pathMatches ms path).drop 1) |>.any (fun (a, b) => nonov k a b) then ["has-jump"] else []) ++
@@ -245,9 +277,9 @@ def verdictKmer (ks xh yh out : String) : String :=
     let exp := kmerMatches x y k
     match (outField out "m").bind parsePairs, (outField out "h1").bind parsePairs, (outField out "h2").bind parsePairs with
     | some m, some h1, some h2 =>
-      if m ≠ exp then "diff m=" ++ showPairs exp else
-      if h1 ≠ exp then "diff h1=" ++ showPairs exp else
-      if h2 ≠ exp then "diff h2=" ++ showPairs exp else
+      if m ≠ exp then "diff m " ++ showPairs exp else
+      if h1 ≠ exp then "diff h1 " ++ showPairs exp else
+      if h2 ≠ exp then "diff h2 " ++ showPairs exp else
       match lcsCheck exp k out with
       | (some v, _) => v
       | (none, t1) =>
@@ -267,21 +299,26 @@ def verdictExpand (ks mms xh yh mss out : String) : String :=
     if k = 0 || !strictLex ms || !(ms.all fun m => m.1 + k ≤ x.length && m.2 + k ≤ y.length) then "bad-op expand-domain" else
     match (outField out "exp").bind parsePairs with
     | some ex =>
+      -- demanded: the expansion is a match list the chaining routines accept (strictly sorted), and the chain over it is
+      -- valid (and, for lcskpp, optimal).  Not fixed by the property, reported as drift tags: the expansion keeps the seeds,
+      -- stays in range, respects the mismatch budget (each side may spend it once ⇒ ≤ 2·allowed per k-mer for exact seeds).
       if !strictLex ex then "reject expand-not-strictly-sorted" else
-      if !(ms.all (ex.contains ·)) then "reject expand-lost-a-given-match" else
-      if !(ex.all fun m => m.1 + k ≤ x.length && m.2 + k ≤ y.length) then "reject expand-out-of-range" else
       let exact := ms.all fun m => window k x m.1 == window k y m.2
-      if exact && !(ex.all fun m => hamming (window k x m.1) (window k y m.2) ≤ 2 * mm) then "reject expand-too-many-mismatches" else
+      let inRange := ex.all fun m => m.1 + k ≤ x.length && m.2 + k ≤ y.length
       match lcsCheck ex k out with
       | (some v, _) => v
       | (none, t1) => "ok" ++ (if ex.length > ms.length then " nt grew" else "") ++ " expand" ++ (if mm = 0 then " mm0" else "")
-          ++ (if exact then " exact-seeds" else "") ++ String.join (t1.map (" " ++ ·))
+          ++ (if exact then " exact-seeds" else "")
+          ++ (if !(ms.all (ex.contains ·)) then " drift-lost-a-seed" else "")
+          ++ (if !inRange then " drift-out-of-range" else "")
+          ++ (if exact && inRange && !(ex.all fun m => hamming (window k x m.1) (window k y m.2) ≤ 2 * mm) then " drift-mismatch-budget" else "")
+          ++ String.join (t1.map (" " ++ ·))
     | none => panicOr out "bad-op expand-output"
   | _, _, _, _, _ => "bad-op expand-parse"
 
 def verdict (toks : List String) (out : String) : String :=
   match toks with
-  | ["codes", a, q, t] => verdictCodes a q t out
+  | ["codes", a, q, t, xs] => verdictCodes a q t xs out
   | ["idx", a, q, mc, t, qs] => verdictIdx a q mc t qs out
   | ["kmer", k, x, y, _, _, _] => verdictKmer k x y out
   | ["lcs", k, ms] => verdictLcs k ms out
